@@ -92,6 +92,22 @@ Theorem C12_rx1_channel_after_add_channels : forall c, In c band_configs ->
 Proof. exact rx1_channel_after_add_channels. Qed.
 Print Assumptions C12_rx1_channel_after_add_channels.
 
+(* ... and every history of AddChannel / DisableUplinkChannelIndex / EnableUplinkChannelIndex
+   calls ([apply_ops], any list of calls with any integer arguments, refused calls included):
+   enabling / disabling changes neither the RX1 channel nor the RX1 frequency of ANY uplink
+   channel (enabled or not), in every region incl. the mod 8 / mod 48 ones *)
+Theorem C12_rx1_channel_after_history : forall c, In c band_configs ->
+  forall reg, region_of (c_name c) = Some reg -> forall ops : list chan_op,
+  let t' := fst (apply_ops (c_tab c) ops) in
+  let c' := with_tables c t' in
+  forall i u, zindex (t_up t') i = Ok u ->
+  exists d, get_rx1_channel_index c' i = Ok (spec_rx1_channel reg i)
+            /\ get_downlink_channel t' (spec_rx1_channel reg i) = Ok d
+            /\ get_rx1_frequency c' (ch_freq u) = Ok (ch_freq d)
+            /\ (match reg with RUS915 | RAU915 | RCN470 => True | _ => ch_freq d = ch_freq u end).
+Proof. exact rx1_channel_after_history. Qed.
+Print Assumptions C12_rx1_channel_after_history.
+
 (* ping-slot frequency: the region's fixed frequency, or hopping over the 8 downlink
    channels by (DevAddr + floor(beacon_time / 128 s)) mod 8; all DevAddr >= 0 and all
    beacon times >= 0 ns *)
